@@ -49,7 +49,7 @@ for d in sorted(glob.glob(f"{ROOT}/seeded/C*-*m[0-9]")):
         "summary": am.get("summary"),
         "needs": am.get("needs"),
         "demo_path": am.get("demo_path"),
-        "produced_by": "fresh sub-agent given only the property text (round 2: plus one-line summaries of the round-1 changes to avoid) and a scratch worktree of /repo (HEAD 3840924)",
+        "produced_by": meta.get("produced_by") or ("fresh sub-agent given only the property text (later rounds: plus one-line summaries of the earlier changes for that property, to avoid) and a scratch worktree of /repo (HEAD " + ("4196d96" if "-r4" in sid else "3840924") + ")"),
         "confirmed": plan.get(sid, {}).get("confirmed", "tools/confirm_mutant.sh: patch applies; builds with and without --features verif-hooks; existing suite 56 passed 0 failed with the patch; demo passes on the base and fails with the patch"),
         "ran": [f"tools/confirm_mutant.sh {prop} {sid.split('-')[1]}", f"git -C {REPO} apply seeded/{sid}/patch.diff; VERIF_SEED=1 ./check <id> quick for {checks}; git -C {REPO} checkout -- ."],
         "detection": det,
